@@ -166,7 +166,7 @@ def opcode_multiset_diff(a, b):
 # ------------------------------------------------------------------------------------------
 # generic seeded PIPE op (shared by C01, C08, C09, C17 ...)
 
-HONEST = ["optimal", "optimal", "any_model", "non_optimal", "skewed", "nth_model", "no_model", "unsat", "timeout"]
+HONEST = ["optimal", "optimal", "any_model", "non_optimal", "skewed", "nth_model", "no_model", "unsat", "timeout", "no_model_bounds"]
 
 
 def peer_plan(rng, n, kinds=None):
